@@ -66,6 +66,8 @@ type connState struct {
 	inMulti bool
 	queue   [][][]byte
 	dirty   bool // a queued command was rejected (EXECABORT)
+	qidx    []int // request index of each queued command (FailInner)
+	curIdx  int   // index of the request being handled
 }
 
 type Target struct {
@@ -90,10 +92,29 @@ type Target struct {
 	// Lenient: data commands never fail with WRONGTYPE (streams generated
 	// without regard to key types stay "healthy")
 	Lenient bool
+
+	// --- opt-in fault injection added for C04/C20 (defaults change nothing) ---
+	// FailFrom >= 0: every request with index >= FailFrom is answered with
+	// FailFromMsg (a persistently failing target); inside MULTI the command is
+	// rejected (EXECABORT at EXEC).
+	FailFrom    int
+	FailFromMsg string
+	// FailInner: request index of a command QUEUED inside MULTI → it is queued
+	// normally, but at EXEC its slot in the reply array is this error and the
+	// command is not applied (a command failing at execution time).
+	FailInner map[int]string
+	// FailExecToo: FailAt/FailFrom hitting an EXEC request discards the queue and
+	// answers the error (by default EXEC is executed regardless of FailAt).
+	FailExecToo bool
+	// BadRestore: keys for which RESTORE answers "ERR Bad data format" once it
+	// has passed the BUSYKEY test (a payload the target's version cannot load).
+	BadRestore map[string]bool
+	// AcceptScripts: SCRIPT LOAD / FUNCTION … answer success instead of "unsupported"
+	AcceptScripts bool
 }
 
 func NewTarget() *Target {
-	return &Target{Dbs: map[int]map[string]*Val{}, FailAt: map[int]string{}, CutAt: -1,
+	return &Target{Dbs: map[int]map[string]*Val{}, FailAt: map[int]string{}, CutAt: -1, FailFrom: -1, FailInner: map[int]string{}, BadRestore: map[string]bool{},
 		conns: map[int]*connState{}, NowMs: 1_000_000, Version: "7.0.0"}
 }
 
@@ -590,6 +611,9 @@ func (t *Target) exec(c *connState, args [][]byte) reply {
 		if t.get(c.db, s(0)) != nil && !replace {
 			return errR("BUSYKEY Target key name already exists.")
 		}
+		if t.BadRestore[s(0)] {
+			return errR("ERR Bad data format")
+		}
 		ttl, err := strconv.ParseInt(s(1), 10, 64)
 		if err != nil || ttl < 0 {
 			return errR("ERR Invalid TTL value, must be >= 0")
@@ -623,6 +647,13 @@ func (t *Target) exec(c *connState, args [][]byte) reply {
 	case "publish":
 		return intR(0)
 	case "script", "eval", "evalsha", "function":
+		if t.AcceptScripts && (cmd == "script" || cmd == "function") {
+			// opt-in: SCRIPT LOAD / FUNCTION RESTORE are accepted (logged, not interpreted)
+			if cmd == "script" {
+				return bulk([]byte("da39a3ee5e6b4b0d3255bfef95601890afd80709"))
+			}
+			return ok()
+		}
 		return errR("ERR unsupported in target double")
 	}
 	// generic data command on key a[0]
@@ -666,19 +697,32 @@ func (t *Target) handle(c *connState, args [][]byte, failMsg string) reply {
 		case "exec":
 			c.inMulti = false
 			q := c.queue
+			qi := c.qidx
 			c.queue = nil
+			c.qidx = nil
+			if t.FailExecToo && failMsg != "" {
+				c.dirty = false
+				return errR(failMsg)
+			}
 			if c.dirty {
 				c.dirty = false
 				return errR("EXECABORT Transaction discarded because of previous errors.")
 			}
 			out := make([]reply, 0, len(q))
-			for _, qa := range q {
+			for j, qa := range q {
+				if j < len(qi) {
+					if m, ok := t.FailInner[qi[j]]; ok {
+						out = append(out, errR(m))
+						continue
+					}
+				}
 				out = append(out, t.exec(c, qa))
 			}
 			return arrR(out)
 		case "discard":
 			c.inMulti = false
 			c.queue = nil
+			c.qidx = nil
 			c.dirty = false
 			return ok()
 		case "multi":
@@ -689,6 +733,7 @@ func (t *Target) handle(c *connState, args [][]byte, failMsg string) reply {
 			return errR(failMsg)
 		}
 		c.queue = append(c.queue, args)
+		c.qidx = append(c.qidx, c.curIdx)
 		return simple("QUEUED")
 	}
 	if failMsg != "" {
@@ -698,6 +743,7 @@ func (t *Target) handle(c *connState, args [][]byte, failMsg string) reply {
 	case "multi":
 		c.inMulti = true
 		c.queue = nil
+		c.qidx = nil
 		c.dirty = false
 		return ok()
 	case "exec":
@@ -727,6 +773,13 @@ func (t *Target) request(connID int, args [][]byte) (reply, bool) {
 	t.Log = append(t.Log, e)
 	hook := t.Hook
 	fail := t.FailAt[idx]
+	if fail == "" && t.FailFrom >= 0 && idx >= t.FailFrom {
+		fail = t.FailFromMsg
+		if fail == "" {
+			fail = "ERR persistent failure injected"
+		}
+	}
+	c.curIdx = idx
 	if hook != nil {
 		t.mu.Unlock()
 		hook(idx, e)
@@ -739,8 +792,12 @@ func (t *Target) request(connID int, args [][]byte) (reply, bool) {
 
 // Replay builds a fresh target whose state is the result of the given request
 // prefix (requests still queued inside an open MULTI have no effect).
-func Replay(entries []LogEntry, nowMs int64) *Target {
+func Replay(entries []LogEntry, nowMs int64) *Target { return ReplayWith(entries, nowMs, false) }
+
+// ReplayWith is Replay with the Lenient setting of the crashed target.
+func ReplayWith(entries []LogEntry, nowMs int64, lenient bool) *Target {
 	t := NewTarget()
+	t.Lenient = lenient
 	if nowMs != 0 {
 		t.NowMs = nowMs
 	}
